@@ -484,10 +484,12 @@ def run(rep: Report, tier: str):
     from ..pitfalls import check_pitfalls, handler_functions
 
     check_pitfalls(repo, rep, "C09.stack-effect", handler_functions(repo))
-    sums = all_summaries(repo)
-    rep.units = {"opcode_classes": len(sums), "paths": sum(len(s.paths) for s in sums), "pickletools_rows": len(pickletools.opcodes)}
-    check_stack_effect(repo, rep, sums)
-    check_memo(repo, rep, sums)
+    with rep.part("opcode summaries"):  # a handler written in a way the abstract interpreter does not model leaves this part
+        # undecided; the step worlds below interpret the same handlers concretely
+        sums = all_summaries(repo)
+        rep.units = {"opcode_classes": len(sums), "paths": sum(len(s.paths) for s in sums), "pickletools_rows": len(pickletools.opcodes)}
+        check_stack_effect(repo, rep, sums)
+        check_memo(repo, rep, sums)
 
     # interpreted last: the rules above stand on their own if the decompiler cannot be interpreted over an input
     from ..vmworlds import C09_KEYS, report as _vm_report
